@@ -77,6 +77,15 @@ class Ctx:
 
     def account(self, domain, op, impl, model, spec):
         self.evaluations += 1
+        if " ALIASED:" in impl:
+            # retention check of the harness: what an EARLIER call handed out changed while this op ran
+            impl, what = impl.split(" ALIASED:", 1)
+            key = "%s:aliased" % what.split(" ", 1)[0]
+            if self.is_known(key) is None:
+                self.violations.append(dict(kind="violation", key=key, domain=domain, op=op, impl=impl + " ALIASED:" + what,
+                                            model=model, spec=spec,
+                                            why="the result of the previous op (%s) changed after this op ran: the implementation "
+                                                "returned storage it reuses between calls" % what))
         opname = op.split(" ", 1)[0]
         cls = impl.split(" ", 1)[0]
         h = self.histogram.setdefault(domain, {})
